@@ -4,13 +4,15 @@ check(s) of its property, undo. Results go to /verif/seeded/results/<ID>_<K>.jso
 evidence files are restored."""
 import json, os, subprocess, sys, shutil, time, glob
 R = "/verif/seeded/results"
-S = "/verif/seeded"
+S = os.environ.get("EVAL_SRC", "/verif/seeded")  # with EVAL_SRC=<root> EVAL_OFFSET=<n>: not yet imported changes, stored as <ID>/<k+n>
+OFF = int(os.environ.get("EVAL_OFFSET", "0"))
 REPO = os.environ.get("EVAL_REPO", "/repo")
 VERIF = os.environ.get("EVAL_VERIF", "/verif")
 os.makedirs(R, exist_ok=True)
 targets = sys.argv[1:] or sorted(p[len(S) + 1:] for p in glob.glob(S + "/C??/[0-9]"))
 OVERRIDE = {"C04/1": ["C09"], "C11/3": ["C11", "C01"]}
-EXTRA = {"C02/3": ["C06"], "C03/1": ["C05"], "C10/1": ["C05"], "C19/1": ["C13"], "C03/2": ["C10"], "C03/3": ["C10"], "C10/2": ["C10"], "C07/1": ["C07", "C17"], "C17/1": ["C17", "C07"]}
+EXTRA = {"C02/3": ["C06"], "C03/1": ["C05"], "C10/1": ["C05"], "C19/1": ["C13"], "C03/2": ["C10"], "C03/3": ["C10"], "C10/2": ["C10"], "C07/1": ["C07", "C17"], "C17/1": ["C17", "C07"],
+         "C01/4": ["C14"], "C02/5": ["C06"], "C03/5": ["C05", "C10"], "C05/4": ["C10"]}
 def sh(cmd, **kw):
     return subprocess.run(cmd, shell=True, stdout=subprocess.PIPE, stderr=subprocess.STDOUT, text=True, **kw)
 for t in targets:
@@ -18,7 +20,7 @@ for t in targets:
     m = f"{S}/{pid}/{k}"
     if not os.path.exists(m + "/patch.diff"):
         continue
-    out = {"mutant": t, "checks": {}}
+    out = {"mutant": f"{pid}/{int(k) + OFF}", "checks": {}}
     if sh(f"git -C {REPO} status --porcelain").stdout.strip():
         print("repo dirty; abort"); sys.exit(2)
     a = sh(f"git -C {REPO} apply {m}/patch.diff")
@@ -30,7 +32,8 @@ for t in targets:
         out["apply_msg"] = a.stdout[-400:]
         sh(f"git -C {REPO} checkout -- . ; git -C {REPO} clean -fdq -e target")
     else:
-        props = OVERRIDE.get(t) or ([pid] + [p for p in EXTRA.get(t, []) if p != pid])
+        name = out["mutant"]
+        props = OVERRIDE.get(name) or ([pid] + [p for p in EXTRA.get(name, []) if p != pid])
         for p in props:
             ev = f"{VERIF}/evidence/{p}.json"
             bak = f"/tmp/evidence_{p}_{os.getpid()}.bak"
@@ -41,5 +44,5 @@ for t in targets:
             out["checks"][p] = {"exit": r.returncode, "violations": viol[:8], "n_violation_lines": len([l for l in viol if l.startswith("VIOLATION")]), "wall_s": round(time.time() - t0), "tail": r.stdout[-600:] if r.returncode not in (0, 1) else ""}
             if os.path.exists(bak): shutil.copy(bak, ev)
         sh(f"git -C {REPO} checkout -- . ; git -C {REPO} clean -fdq -e target")
-    json.dump(out, open(f"{R}/{pid}_{k}.json", "w"), indent=1)
-    print(t, "applies" if out["applies"] else "NOAPPLY", {p: (c["exit"], c["n_violation_lines"]) for p, c in out["checks"].items()}, flush=True)
+    json.dump(out, open(f"{R}/{pid}_{int(k) + OFF}.json", "w"), indent=1)
+    print(out["mutant"], "applies" if out["applies"] else "NOAPPLY", {p: (c["exit"], c["n_violation_lines"]) for p, c in out["checks"].items()}, flush=True)
